@@ -185,6 +185,14 @@ class TaggedValue(ir.Value):
         return f"TaggedValue(tag={self.tag}, name={self.name!r})"
 
 
+class EarlySetterNode(ir.Node):
+    """A subclass that assigns through a property setter BEFORE calling the base constructor (which then overrides it)."""
+
+    def __init__(self, *args, **kwargs) -> None:
+        self.name = "set_early"
+        super().__init__(*args, **kwargs)
+
+
 # ------------------------------------------------------------------ the ops
 def op_new_value(w, a, b, c, d):
     kw = {}
@@ -221,7 +229,9 @@ def op_new_node(w, a, b, c, d):
     if (b >> 16) % 11 == 5:
         base = w.graph(b >> 20)
         g = [ir.GraphView(list(base.inputs), list(base.outputs), nodes=list(base)) if base is not None else "g", "not a graph"][(b >> 23) % 2]
-    n = ir.Node("" if c % 7 else "custom", OPTYPES[c % len(OPTYPES)], as_iterable(ins, c >> 9), num_outputs=1 + (c >> 3) % 3, name=nm, graph=g)
+    # (a user subclass that uses a property setter before the base constructor has run, in a few cases)
+    cls = EarlySetterNode if (b >> 9) % 17 == 3 else ir.Node
+    n = cls("" if c % 7 else "custom", OPTYPES[c % len(OPTYPES)], as_iterable(ins, c >> 9), num_outputs=1 + (c >> 3) % 3, name=nm, graph=g)
     w.last_new = (n, nm)
     w.reg(n)
     for o in n.outputs:
